@@ -334,11 +334,11 @@ func raceClass(rnd *rand.Rand, e *vh.Env, v raceVariant, rounds, emitCap int) ra
 		bound := []int{0, 0, 0, 2, 1}[rnd.Intn(5)]
 		switch v.kind {
 		case "mq":
-			sp = spec{"mq", []int{bound, []int{0, 0, 2}[rnd.Intn(3)]}}
+			sp = spec{kind: "mq", caps: []int{bound, []int{0, 0, 2}[rnd.Intn(3)]}}
 		case "sync":
-			sp = spec{"sync", nil}
+			sp = spec{kind: "sync", caps: nil}
 		default:
-			sp = spec{v.kind, []int{bound}}
+			sp = spec{kind: v.kind, caps: []int{bound}}
 		}
 		id := int64(0)
 		mk := func() op { id++; return op{code: addCodes(v.kind, rnd), x: id} }
